@@ -45,10 +45,15 @@ let dump_pq (q : M.rpq) : string =
     (List.length q.M.dups)
     (String.concat "" (List.map (fun d -> " " ^ sz d) q.M.dups))
 
+let with_data (q : M.rq) = Z.gt (z_of_cz q.M.rq_nbytes) Z.zero
+
 let dump_state (st : M.e2e_rcv) : string =
-  Printf.sprintf "state %s S %d%s A %s" (dump_pq st.M.e2e_pq) (List.length st.M.e2e_streams)
+  let det = List.filter with_data st.M.e2e_detached in
+  Printf.sprintf "state %s S %d%s D %d%s A %s W %s" (dump_pq st.M.e2e_pq) (List.length st.M.e2e_streams)
     (String.concat "" (List.map (fun (sid, q) -> " sid " ^ sz sid ^ " " ^ dump_rq q) st.M.e2e_streams))
-    (sbool st.M.e2e_abort)
+    (List.length det)
+    (String.concat "" (List.map (fun q -> " dsid " ^ sz q.M.rq_si ^ " " ^ dump_rq q) det))
+    (sbool st.M.e2e_abort) (sz (M.e2e_a_rwnd st))
 
 let rec take n l = if n <= 0 then ([], l) else match l with [] -> ([], []) | x :: t -> let (a, b) = take (n - 1) t in (x :: a, b)
 
@@ -103,10 +108,13 @@ let parse_state buf maxent il toks : M.e2e_rcv =
   let r = expect "S" r in let (ns, r) = int_tok r in
   let (streams, r) = parse_n ns (fun t -> let t = expect "sid" t in let (sid, t) = str_tok t in
                                           let (q, t) = parse_rq sid maxent t in ((cz sid, q), t)) r in
+  let r = expect "D" r in let (nd2, r) = int_tok r in
+  let (detached, r) = parse_n nd2 (fun t -> let t = expect "dsid" t in let (sid, t) = str_tok t in parse_rq sid maxent t) r in
   let r = expect "A" r in let (ab, _) = str_tok r in
   { M.e2e_pq = { M.cum = cz cum; tail = cz tail; size = cz size; bits = bits; dups = List.map cz dups;
                  max_off = cz mo; nwords = cz nw };
-    e2e_streams = streams; e2e_buf = cz buf; e2e_maxent = cz maxent; e2e_il = il; e2e_abort = (ab = "1") }
+    e2e_streams = streams; e2e_buf = cz buf; e2e_maxent = cz maxent; e2e_il = il; e2e_abort = (ab = "1");
+    e2e_detached = detached }
 
 (* the bitmap is compared as words, so the order of the loaded bit positions is irrelevant *)
 
@@ -115,7 +123,7 @@ let run path =
   let ncase = ref 0 in
   let n_arr = ref 0 and n_rd = ref 0 and n_state = ref 0 in
   let o_wrong = ref 0 and o_nostream = ref 0 and o_stored = ref 0 and o_err = ref 0 and o_full = ref 0 and o_na = ref 0 in
-  let rd_ok = ref 0 and n_load = ref 0 in
+  let rd_ok = ref 0 and n_load = ref 0 and n_reset = ref 0 and n_rdd = ref 0 in
   List.iter (fun (name, lines) ->
     incr ncase;
     let st = ref (M.e2e_new (czi 1) (czi 1024) (czi 0) false) in
@@ -156,6 +164,24 @@ let run path =
               | M.RdShort mn -> String.concat " " [sz mn; "0"; "2"]
               | M.RdTryAgain -> "0 0 1" in
             if m <> im then bad ("rd " ^ sid ^ " " ^ buflen) m im
+        | ["reset"; sid] -> incr n_reset; st := M.e2e_reset !st (cz sid)
+        | "rdd" :: k :: buflen :: n :: ppi :: code :: _k :: bytes ->
+            incr n_rdd;
+            (* k counts the detached streams that still hold data (harness glue: position in the model's list) *)
+            let rec pos i k = function
+              | [] -> -1
+              | q :: t -> if with_data q then (if k = 0 then i else pos (i + 1) (k - 1) t) else pos (i + 1) k t in
+            let p = pos 0 (int_of_string k) (!st).M.e2e_detached in
+            let (st', r) = M.e2e_read_detached !st (nat_of_int (max p 0)) (cz buflen) in
+            st := st';
+            let im = String.concat " " (n :: ppi :: code :: bytes) in
+            let m = match r with
+              | M.RdOk (mn, mppi, del) ->
+                  let data = List.concat (List.map (fun c -> c.M.rqc_data) del) in
+                  String.concat " " (sz mn :: sz mppi :: "0" :: List.map sz data)
+              | M.RdShort mn -> String.concat " " [sz mn; "0"; "2"]
+              | M.RdTryAgain -> "0 0 1" in
+            if p < 0 || m <> im then bad ("rdd " ^ k ^ " " ^ buflen) m im
         | "state" :: _ ->
             incr n_state;
             let im = String.concat " " toks in
@@ -166,5 +192,5 @@ let run path =
             if m <> im then bad "state" m im
         | _ -> bad "unparsed line" "" (String.concat " " toks)
       end) lines) cases;
-  Printf.printf "SUMMARY component=e2e cases=%d records=%d mismatches=%d arrivals=%d stored=%d stored_with_error=%d full_dropped=%d not_acceptable=%d no_stream=%d wrong_kind=%d reads=%d reads_ok=%d states=%d loaded_states=%d\n"
-    !ncase !records !mismatches !n_arr !o_stored !o_err !o_full !o_na !o_nostream !o_wrong !n_rd !rd_ok !n_state !n_load
+  Printf.printf "SUMMARY component=e2e cases=%d records=%d mismatches=%d arrivals=%d stored=%d stored_with_error=%d full_dropped=%d not_acceptable=%d no_stream=%d wrong_kind=%d reads=%d reads_ok=%d states=%d loaded_states=%d resets=%d reads_on_detached=%d\n"
+    !ncase !records !mismatches !n_arr !o_stored !o_err !o_full !o_na !o_nostream !o_wrong !n_rd !rd_ok !n_state !n_load !n_reset !n_rdd
